@@ -132,6 +132,20 @@ func (c *cluster) coalesced() int {
 	return n
 }
 
+// members reads every broker's member list.
+func (c *cluster) members() map[string][]string {
+	out := map[string][]string{}
+	for _, n := range c.names {
+		out[n] = []string{}
+		for _, m := range c.names {
+			if m != n && c.nodes[n].b.Svc.VerifCluster().VerifHasPeer(c.nodes[m].peer) {
+				out[n] = append(out[n], m)
+			}
+		}
+	}
+	return out
+}
+
 // observe reads, for every broker, the remote entries of its real trie and the subscription events its replica holds active.
 func (c *cluster) observe() (map[string][][]string, map[string][][]string) {
 	routes, active := map[string][][]string{}, map[string][][]string{}
@@ -159,7 +173,7 @@ func (c *cluster) observe() (map[string][][]string, map[string][][]string) {
 			if !ok || len(ev.Ssid) != 2 || !v.IsAdded() {
 				return
 			}
-			if s, ok := ssidName[ev.Ssid[1]]; ok && uint64(ev.Conn) == c.nodes[owner].connID {
+			if s, ok := ssidName[ev.Ssid[1]]; ok {
 				active[n] = append(active[n], []string{owner, s})
 			}
 		})
@@ -172,9 +186,13 @@ func (c *cluster) observe() (map[string][][]string, map[string][][]string) {
 // abstractPayload decodes wire bytes and reports, per model key, whether add / remove times are present and how it reads.
 func (c *cluster) abstractPayload(buf []byte) map[string]map[string]bool {
 	out := map[string]map[string]bool{}
+	byConn := map[uint64]string{}
 	for _, o := range c.names {
-		for _, s := range c.ssids {
-			out[o+"/"+s] = map[string]bool{"a": false, "d": false, "on": false}
+		byConn[c.nodes[o].connID] = o
+		for _, q := range c.names {
+			for _, s := range c.ssids {
+				out[o+"."+q+"/"+s] = map[string]bool{"a": false, "d": false, "on": false}
+			}
 		}
 	}
 	st, err := event.DecodeState(buf)
@@ -187,11 +205,12 @@ func (c *cluster) abstractPayload(buf []byte) map[string]map[string]bool {
 	}
 	st.Subscriptions(func(ev *event.Subscription, v event.Value) {
 		owner, ok := c.byPeer[ev.Peer]
-		if !ok || len(ev.Ssid) != 2 || uint64(ev.Conn) != c.nodes[owner].connID {
+		connOf, ok2 := byConn[uint64(ev.Conn)]
+		if !ok || !ok2 || len(ev.Ssid) != 2 {
 			return
 		}
 		if s, ok := ssidName[ev.Ssid[1]]; ok {
-			out[owner+"/"+s] = map[string]bool{"a": v.AddTime() > 0, "d": v.DelTime() > 0, "on": v.IsAdded()}
+			out[owner+"."+connOf+"/"+s] = map[string]bool{"a": v.AddTime() > 0, "d": v.DelTime() > 0, "on": v.IsAdded()}
 		}
 	})
 	return out
@@ -244,6 +263,17 @@ func Replay(walk []json.RawMessage, names, ssids []string, label string, lic int
 				ev["kind"] = msgs[0].Kind
 				ev["p"] = c.abstractPayload(msgs[0].Buf)
 			}
+		case "linkdown", "linkup":
+			ev["to"] = a.To
+			y := c.nodes[a.To]
+			if a.N == "linkdown" {
+				c.net.SetDown(x.peer, y.peer, true, nil, nil)
+			} else {
+				c.net.SetDown(x.peer, y.peer, false, x.b.Svc.VerifCluster().Gossip(), y.b.Svc.VerifCluster().Gossip())
+			}
+		case "gc":
+			ev["to"] = a.To
+			x.b.Svc.VerifCluster().VerifPeerOffline(c.nodes[a.To].peer)
 		case "deliver":
 			ev["to"] = a.To
 			y := c.nodes[a.To]
@@ -255,7 +285,11 @@ func Replay(walk []json.RawMessage, names, ssids []string, label string, lic int
 		}
 		ev["routes"], ev["active"] = c.observe()
 		ev["coalesced"] = c.coalesced()
+		ev["members"] = c.members()
 		tr.Events = append(tr.Events, core.Ev(ev))
+	}
+	if debugHook != nil {
+		debugHook(c)
 	}
 	// forwarding probes: a real publish on every broker for every ssid (the trace spec constrains them at quiescence)
 	for _, b := range names {
@@ -272,6 +306,7 @@ func Replay(walk []json.RawMessage, names, ssids []string, label string, lic int
 }
 
 var probeSeq int64
+var debugHook func(*cluster)
 
 // probe publishes one message on broker b for ssid s, moves the peer frames it produces to their destinations and
 // reports which brokers were sent a frame and how many copies each broker's client received.
@@ -366,28 +401,44 @@ func Explore(c *core.Ctx) int64 {
 	type conf struct {
 		names           []string
 		ops, per, n, dp int
+		faults          int
 	}
-	confs := []conf{{[]string{"b1", "b2"}, 3, 1, 25, 40}, {[]string{"b1", "b2", "b3"}, 3, 1, 25, 70}}
+	confs := []conf{{[]string{"b1", "b2"}, 3, 1, 25, 40, 0}, {[]string{"b1", "b2", "b3"}, 3, 1, 25, 70, 0}, {[]string{"b1", "b2"}, 4, 1, 30, 60, 1}}
 	if !c.Quick() {
-		confs = []conf{{[]string{"b1", "b2"}, 4, 2, 300, 60}, {[]string{"b1", "b2", "b3"}, 4, 1, 400, 90}}
+		confs = []conf{{[]string{"b1", "b2"}, 4, 2, 300, 60, 0}, {[]string{"b1", "b2", "b3"}, 4, 1, 400, 90, 0}, {[]string{"b1", "b2"}, 4, 1, 300, 70, 2}, {[]string{"b1", "b2", "b3"}, 3, 1, 200, 100, 1}}
 	}
 	var nontrivial int64
 	for ci, k := range confs {
-		mc := func(gen string, ops, per int, view bool) string {
-			s := fmt.Sprintf("CONSTANTS\n Brokers = %s\n Ssids = %s\n MaxOps = %d\n MaxPeriodic = %d\n Gen = %q\nINIT MCInit\nNEXT MCNext\nINVARIANTS RoutingAtQuiescence ForwardingAtQuiescence ConvergedAtQuiescence Dump\n", set(k.names), set(ssids), ops, per, gen)
+		mc := func(gen string, ops, per int, view bool, asIs bool) string {
+			dev := "FALSE"
+			if asIs {
+				dev = "TRUE"
+			}
+			s := fmt.Sprintf("CONSTANTS\n Brokers = %s\n Ssids = %s\n GcAsCode = %s\n MaxOps = %d\n MaxPeriodic = %d\n MaxFaults = %d\n Gen = %q\nINIT MCInit\nNEXT MCNext\n", set(k.names), set(ssids), dev, ops, per, k.faults, gen)
+			if asIs {
+				s += "INVARIANTS Dump\n"
+			} else {
+				s += "INVARIANTS RoutingAtQuiescence ForwardingAtQuiescence ConvergedAtQuiescence Dump\n"
+			}
 			if view {
 				s += "VIEW View\n"
 			}
 			return s
 		}
-		// design level (exhaustive): with union coalescing the routing invariant holds at quiescence
+		// design level (exhaustive): with union coalescing, and a garbage collection that only forgets the peer, the routing
+		// invariant holds at quiescence (also across a link going away and coming back)
 		mcOps := k.ops
-		if len(k.names) == 3 {
+		if len(k.names) == 3 || k.faults > 0 {
 			mcOps = 2
 		}
-		c.ModelCheck("MC_Gossip", mc("none", mcOps, k.per, true), tlc.Opts{})
+		if k.faults > 0 && !c.Quick() && len(k.names) == 2 {
+			mcOps = 3
+		}
+		c.ModelCheck("MC_Gossip", mc("none", mcOps, k.per, true, false), tlc.Opts{})
 		var lines []string
-		r, err := tlc.Run(tlc.Opts{SpecDir: core.SpecDir(), Module: "MC_Gossip", Cfg: mc("sim", k.ops, k.per, false), Workers: 1, SimNum: k.n, SimDepth: k.dp, Seed: c.Seed + int64(ci),
+		// schedules with faults are generated from the model of what the code does (the garbage-collection step is enabled
+		// for the peers the real member list holds)
+		r, err := tlc.Run(tlc.Opts{SpecDir: core.SpecDir(), Module: "MC_Gossip", Cfg: mc("sim", k.ops, k.per, false, k.faults > 0), Workers: 1, SimNum: k.n, SimDepth: k.dp, Seed: c.Seed + int64(ci),
 			OnTag: func(tag, js string) {
 				if tag == "BEH" {
 					lines = append(lines, strings.TrimSuffix(strings.TrimSpace(js), "]"))
@@ -413,12 +464,14 @@ func Explore(c *core.Ctx) int64 {
 		}
 		c.Add("simulated_schedules", int64(len(walks)))
 		var traces []*core.Trace
+		byLabel := map[string]*core.Trace{}
 		for i, w := range walks {
-			t, err := Replay(w, k.names, ssids, fmt.Sprintf("gossip-%db-%d", len(k.names), i), 1+(i%3))
+			t, err := Replay(w, k.names, ssids, fmt.Sprintf("gossip-%db-f%d-%d", len(k.names), k.faults, i), 1+(i%3))
 			if err != nil {
 				core.Fatalf("replay: %v", err)
 			}
 			traces = append(traces, t)
+			byLabel[t.Label] = t
 			c.Add("evaluations", int64(len(t.Events)-1))
 		}
 		if len(traces) > 0 {
@@ -431,22 +484,69 @@ func Explore(c *core.Ctx) int64 {
 			}
 			c.Sample(map[string]any{"label": t.Label, "events_head": head})
 		}
-		cfg := fmt.Sprintf("CONSTANTS\n Brokers = %s\n Ssids = %s\nINIT TraceInit\nNEXT TraceNext\nCONSTRAINT MarkC\nINVARIANT TraceInv\nPOSTCONDITION AllConsumed\nCHECK_DEADLOCK FALSE\n", set(k.names), set(ssids))
-		rej := c.ValidateTraces(traces, core.ValidateOpts{Module: "Gossip_Trace", Cfg: cfg, ChunkSize: 1500})
+		tcfg := func(asIs bool) string {
+			dev := "FALSE"
+			if asIs {
+				dev = "TRUE"
+			}
+			return fmt.Sprintf("CONSTANTS\n Brokers = %s\n Ssids = %s\n GcAsCode = %s\nINIT TraceInit\nNEXT TraceNext\nCONSTRAINT MarkC\nINVARIANT TraceInv\nPOSTCONDITION AllConsumed\nCHECK_DEADLOCK FALSE\n", set(k.names), set(ssids), dev)
+		}
+		rej := c.ValidateTraces(traces, core.ValidateOpts{Module: "Gossip_Trace", Cfg: tcfg(false), ChunkSize: 1500})
+		// how many coalescing steps / garbage collections of a member happened up to (and including) event idx of a trace
+		history := func(t *core.Trace, idx int) (co int, gc bool) {
+			for i := 0; i <= idx && i < len(t.Events); i++ {
+				var e struct {
+					E         string `json:"e"`
+					Coalesced int    `json:"coalesced"`
+				}
+				json.Unmarshal(t.Events[i], &e)
+				if e.E == "gc" {
+					gc = true
+				}
+				if e.E != "reset" {
+					co = e.Coalesced
+				}
+			}
+			return
+		}
+		// a schedule with a garbage-collection step that the intended design rejects is validated again against the model of
+		// what the code does around garbage collection (listed finding gc_peer_return): only what that model explains is
+		// attributed to the finding
+		var again []*core.Trace
+		var first []core.Rejection
+		for _, rj := range rej {
+			_, gc := history(rj.Trace, rj.Index)
+			// (C13 is about what a payload carries, not about routing: for it the model of the code is the reference after a
+			// garbage collection, and no finding is involved)
+			if gc && (c.KnownQuiet("gc_peer_return") || c.ID != "C05") {
+				again = append(again, rj.Trace)
+				continue
+			}
+			first = append(first, rj)
+		}
+		if len(again) > 0 {
+			rej2 := c.ValidateTraces(again, core.ValidateOpts{Module: "Gossip_Trace", Cfg: tcfg(true), ChunkSize: 1500})
+			bad := map[string]bool{}
+			for _, rj := range rej2 {
+				bad[rj.Trace.Label] = true
+				first = append(first, rj)
+			}
+			for _, t := range again {
+				if !bad[t.Label] && c.ID == "C05" {
+					c.Known("gc_peer_return")
+					c.Add("schedules_explained_by_gc_peer_return", 1)
+				}
+			}
+			c.Add("schedules_revalidated_against_the_gc_deviation", int64(len(again)))
+		}
+		rej = first
 		rejected := map[string]bool{}
 		var rest []core.Rejection
 		for _, rj := range rej {
 			rejected[rj.Trace.Label] = true
 			// a listed finding explains a rejection only in a schedule that coalesced payloads in a sender bucket before the
 			// rejected step (the finding is identified by that history, not by the property)
-			co := 0
-			for i := 0; i <= rj.Index && i < len(rj.Trace.Events); i++ {
-				var e struct {
-					Coalesced int `json:"coalesced"`
-				}
-				json.Unmarshal(rj.Trace.Events[i], &e)
-				co = e.Coalesced
-			}
+			co, _ := history(rj.Trace, rj.Index)
 			if co > 0 && c.Known("merge_returns_delta") {
 				c.Add("schedules_explained_by_merge_returns_delta", 1)
 				continue
